@@ -606,11 +606,13 @@ def run(chk):
     # and nothing else (C12's rules on pack.c)
     from . import C12
     chk.rule_prefix = "pack."
-    chk.rule_filter = lambda r: r.startswith(("P1", "P2", "P3", "P4", "P5"))
+    chk.rule_filter = lambda r: r.startswith(("P1", "P2", "P3", "P4", "P5", "P6"))
     mp = build.load_unit("librfn/pack.c")
     chk.note_unit(mp)
     for f2 in mp.defined_functions():
         if C12.is_pack_fn(f2) and C12.NAME_RE.match(f2.name):
             C12.check_transfer(chk, mp, f2)
+    # both codecs return sz - rf_pack_remaining(): the length, and the "buffer too short" signal (remaining going negative)
+    C12.check_aux(chk, mp)
     chk.rule_prefix = ""
     chk.rule_filter = None
